@@ -7,8 +7,8 @@ LEVEL = "proof"
 RULE = ("(i) the real WriteOrThrow / PartialRead / ReadOrEOF / ReadOrThrow in-process with read(2)/write(2) interposed: every outcome "
         "script of length <= 5 (quick: 4) over {full, 1 byte, n-1 bytes, EINTR} plus hard errors, for several data lengths; result AND "
         "the sequence of request sizes issued must equal the Lean model's; (ii) every executable with a standard invocation under an "
-        "LD_PRELOAD shim that returns random short counts and EINTR from read/write on all descriptors (stdin, stdout, shard files, "
-        "child pipes): stdout, output files and exit status must equal the fault-free run; runs in which no fault fired are not "
+        "LD_PRELOAD shim that returns random short counts (five profiles, from occasionally short to every transfer 1 byte) and EINTR from read/write on all descriptors (stdin, stdout, shard files, "
+        "child pipes), on the standard corpus and on its CRLF variant: stdout, output files and exit status must equal the fault-free run; runs in which no fault fired are not "
         "counted; non-trivial = distinct (tool, seed) with >= 1 fault fired, or distinct script")
 ASSUMPTIONS = ["iostream-based tools (mmhsum, process_unicode, gigaword_unwrap, order_independent_hash output) rely on libstdc++'s own "
                "retry loops, exercised but not modelled", "input-side schedule independence of records is C02's theorem"]
@@ -55,8 +55,16 @@ def run(ctx):
     # (ii) tools under the fault shim
     shim = os.path.join(ctx.bdir, "harness", "faults_preload.so")
     fired_total, counted, skipped = 0, 0, 0
-    nseeds = 3 if ctx.tier == "quick" else 20
-    for (label, tool, args, stdin, outs) in toolset.invocations(ctx.tmp, rng, 300):
+    nseeds = 5 if ctx.tier == "quick" else 25
+    # fault profiles (short%, EINTR%, largest short count): drawing the short count from 1..count-1 hardly ever shortens a
+    # 64 KiB request on a few KiB of input, so most profiles bound it and fire almost always, which cuts the whole
+    # input into 1..n byte transfers and puts a transfer boundary at (nearly) every byte position
+    profiles = [(40, 25, None), (97, 2, 1), (95, 3, 3), (90, 5, 17), (60, 20, 4096)]
+    invs = toolset.invocations(ctx.tmp, rng, 300)
+    # the same corpus with CRLF line ends (a boundary between the CR and the LF is its own case in ReadLine)
+    invs += [(label + "-crlf", tool, args, stdin.replace(b"\r\n", b"\n").replace(b"\n", b"\r\n"), outs)
+             for (label, tool, args, stdin, outs) in invs if not label.startswith("warc_parallel")]
+    for (label, tool, args, stdin, outs) in invs:
         for f in outs:
             if os.path.exists(f):
                 os.unlink(f)
@@ -70,7 +78,11 @@ def run(ctx):
             for f in outs:
                 if os.path.exists(f):
                     os.unlink(f)
-            env = pvlib.san_env({"LD_PRELOAD": shim, "PV_FAULT_RANDOM": f"{seed}:40:25", "PV_FAULT_REPORT": rep})
+            ps, pe, ms = profiles[s % len(profiles)]
+            fenv = {"PV_FAULT_RANDOM": f"{seed}:{ps}:{pe}"}
+            if ms:
+                fenv["PV_FAULT_MAXSHORT"] = str(ms)
+            env = pvlib.san_env(dict(fenv, LD_PRELOAD=shim, PV_FAULT_REPORT=rep))
             env["ASAN_OPTIONS"] += ":verify_asan_link_order=0"
             st, out, err = pvlib.run_tool([ctx.bin(tool)] + args, stdin, env=env, timeout=120)
             fired = 0
@@ -88,11 +100,11 @@ def run(ctx):
             same = (st == st0 and files == files0 and (out == out0 or label.startswith("warc_parallel") and sorted(out.split(b"WARC/1.0")) == sorted(out0.split(b"WARC/1.0"))))
             if not same:
                 what = "exit status" if st != st0 else ("an output file" if files != files0 else "stdout")
-                pvlib.report_violation(ctx, f"faults:{label}:{seed}", {"argv": [tool] + args, "stdin_hex": hx(stdin)[:20000], "env": {"PV_FAULT_RANDOM": f"{seed}:40:25"},
+                pvlib.report_violation(ctx, f"faults:{label}:{seed}", {"argv": [tool] + args, "stdin_hex": hx(stdin)[:20000], "env": fenv,
                                        "status": [st0, st], "faults_fired": fired, "stdout_len": [len(out0), len(out)],
                                        "stderr": err.decode(errors="replace")[-400:]},
                                        summary=f"{label}: {what} differs from the fault-free run under short reads/writes and EINTR "
-                                               f"(PV_FAULT_RANDOM={seed}:40:25, {fired} faults fired; status {st0} -> {st})")
+                                               f"({fenv}, {fired} faults fired; status {st0} -> {st})")
                 break
     ctx.cov["faults_fired_total"] = fired_total
     ctx.cov["tool_runs_counted"] = counted
